@@ -407,7 +407,7 @@ def wpt_vectors(eng):
 def setter_values():
     out = set([b"", b"a", b"b c", b"?x", b"#y", b"1", b"80", b"443", b"65536", b"8a", b"/", b"//", b"/.", b"..", b"%", b"http", b"HTTPS", b"ws", b"file", b"x:",
                b"a@", b":", b"\t?", b"[::1]", b"1.2", b"1.2.3.4", b"1.2.3.4.5", b"0x100000000", b"256.256.256.256", b"example.com", b"EXAMPLE.com:8080",
-               b"\\", b"A", b"xn--", b" ", b"a b", b"//x", b"/a/../b", b"C|", b"localhost", b"a:b@c", b"\x00", b"~", b"^", b"<>", b"`", b"{}", b"'"])
+               b"FILE", b"File:", b"fILe", b"HTTPS:", b"Https", b"HTTP", b"WSS", b"Ws:", b"FtP", b"\\", b"A", b"xn--", b" ", b"a b", b"//x", b"/a/../b", b"C|", b"localhost", b"a:b@c", b"\x00", b"~", b"^", b"<>", b"`", b"{}", b"'"])
     p = os.path.join(REPO, "tests/wpt/setters_tests.json")
     try:
         d = json.load(open(p, encoding="utf-8"))
@@ -657,6 +657,15 @@ def idna_corpus(eng):
         for b in ml[::5]:
             for c in ml[::7]:
                 nfc_rec([0x61, a, b, c])
+    # long runs of combining marks (library sorts switch algorithm above 15-16 elements): every class twice, interleaved
+    # and reversed, behind a plain and behind a decomposable base
+    for base in ([0x61], [0xE9], [0x1EA5]):
+        for ln in (16, 17, 18, 24, 33, 40):
+            run = [ml[(7 * i) % len(ml)] for i in range(ln)]
+            nfc_rec(base + run)
+            nfc_rec(base + run[::-1])
+            two = [m for cc in sorted(marks, reverse=True) for m in marks[cc][::-1]][:ln]
+            nfc_rec(base + two)
     for l in (0x1100, 0x1105, 0x1112):
         for v in (0x1161, 0x116A, 0x1175):
             nfc_rec([l, v])
@@ -700,3 +709,19 @@ def idna_corpus(eng):
     return {"parsed": int(m.group(1)) + int(m.group(3)), "bad": int(m.group(2)) + int(m.group(4)), "nfc_vectors": int(m.group(1)), "nfc_bad": int(m.group(2)),
             "toascii_vectors": int(m.group(3)), "toascii_bad": int(m.group(4)), "unicodedata": unicodedata.unidata_version,
             "fails": [x[:400] for x in re.findall(r"IDNA-FAIL.*", r.stdout)[:10]]}
+
+
+def sp_model(eng):
+    """native list-model base case for C12: url_search_params vs the Standard's list of pairs over histories (harness/sp_model.cpp)"""
+    wd = os.path.join(eng.work, "spmodel")
+    os.makedirs(wd, exist_ok=True)
+    exe = os.path.join(wd, "sp_model.exe")
+    r = subprocess.run([CLANGXX, "-std=c++20", "-O1", "-w", "-I" + os.path.join(REPO, "include"), "-I" + os.path.join(REPO, "src"),
+                        os.path.join(VERIF, "harness", "sp_model.cpp"), os.path.join(REPO, "src", "ada.cpp"), "-o", exe], capture_output=True, text=True)
+    if r.returncode != 0:
+        return {"error": "build: " + r.stderr[-400:]}
+    r = subprocess.run([exe], capture_output=True, text=True, errors="replace", timeout=900)
+    m = re.search(r"SPMODEL runs=(\d+) bad=(\d+)", r.stdout)
+    if not m:
+        return {"error": f"rc={r.returncode} " + (r.stdout + r.stderr)[-300:]}
+    return {"parsed": int(m.group(1)), "bad": int(m.group(2)), "fails": [x[:500] for x in re.findall(r"SPMODEL-FAIL.*", r.stdout)[:5]]}
